@@ -13,7 +13,12 @@ Protocol (see lean/Operon/Drv/C03.lean).  Axes driven on the real code:
     with a scripted adversarial provider;
   * registration WHILE a call is in flight: scripted slots (`arm`) fired by the argument expressions of a tool call
     (callables placed in the evaluator's function table), by the evaluation of `**call.arguments` of a structured
-    call, and by the provider between rounds.
+    call, and by the provider between rounds;
+  * names: look-alike spellings of a registered name (case, blanks, full-width, NFC / NFD, qualified, - for _) in
+    requests, registrations and removals (tokens `<base>~<variant>`, decoded here only);
+  * several engines alive in one history (`eng`), each with its own ceiling, sharing callables and handing tool objects
+    to one another (`share`); declared set / ceiling set mutated in place (`redecl … i`, `setal … i`);
+  * search only: a call object with a scripted `name` property (`callx`), a tool body that requests a tool itself (`nest`).
 """
 from __future__ import annotations
 
@@ -437,6 +442,8 @@ class C03(Prop):
         "evaluation of tool-call arguments executes no tool (C01); what it does to the registry through the public "
         "registration API and whether it then succeeds or raises are inputs of the model",
         "a declaration is not re-assigned on the live tool object while a request for that tool is in flight",
+        "the callee of an expression is the identifier Python's parser reads in its text (computed by the harness with ast, "
+        "recorded in the protocol line); which tool objects are shared between engines is recorded by the harness from its own registrations",
         "the ROS latch, the length guard and pathway auto-detection are inputs (recorded from the real run); the theorems hold whatever they decide",
     ]
     trusted_modelled = [
